@@ -2,15 +2,19 @@
 (***************************************************************************)
 (* C15: the automaton Permuta builds for a basis, run in product with the  *)
 (* pin machine.  The implementation's DFA is exported by the harness as a  *)
-(* table (constants DfaN, DfaDelta, DfaFinal, DfaInit; a second table for  *)
-(* the automaton assembled from the on-disk database).                     *)
+(* table (constants DfaN, DfaDelta, DfaFinal, DfaInit).  Dfa2*: a SEQUENCE *)
+(* of further tables - the automata the implementation returns for the     *)
+(* same basis in other ways (assembled from the on-disk database, after    *)
+(* the database was filled in another order, asked a second time, basis    *)
+(* reordered / with repeated elements, ...); all must have the language of *)
+(* the first.                                                              *)
 (* Mode "semantic": states are (direction word m, DFA state reached on m)  *)
 (* for all words of the pin-sequence language M (alternating vertical /    *)
 (* horizontal) up to MaxWord; invariant: the DFA accepts m iff the         *)
 (* permutation encoded by m contains a basis element.                      *)
-(* Mode "equiv": states are pairs of DFA states of the two tables reached  *)
+(* Mode "equiv": states are tuples of DFA states of all the tables reached *)
 (* on a common word (all words over the alphabet, no length bound - the    *)
-(* pair graph is finite); invariant: both accept or both reject.           *)
+(* product graph is finite); invariant: all accept or all reject.          *)
 (* FiniteByGraph: the words of M the DFA rejects are bounded in length iff *)
 (* no cycle of the (DFA x M) graph is both reachable and able to reach a   *)
 (* rejecting state - evaluated on the exported table.                      *)
@@ -19,7 +23,7 @@ EXTENDS Pin, Json
 
 CONSTANTS Mode, Basis, MaxWord,
           DfaN, DfaDelta, DfaFinal, DfaInit,          \* states 1..DfaN, DfaDelta[q][d]
-          Dfa2N, Dfa2Delta, Dfa2Final, Dfa2Init
+          Dfa2N, Dfa2Delta, Dfa2Final, Dfa2Init       \* sequences: Dfa2Delta[k][q][d] for the k-th further automaton
 
 VARIABLES word, q1, q2
 vars == <<word, q1, q2>>
@@ -28,7 +32,7 @@ Init == word = <<>> /\ q1 = DfaInit /\ q2 = Dfa2Init
 MayAppend(w, d) == IF w = <<>> THEN TRUE ELSE (w[Len(w)] \in Vert) # (d \in Vert)
 Step(d) == /\ IF Mode = "semantic" THEN Len(word) < MaxWord /\ MayAppend(word, d) ELSE TRUE
            /\ word' = IF Mode = "semantic" THEN Append(word, d) ELSE <<d>>       \* (equiv: only the last letter is kept)
-           /\ q1' = DfaDelta[q1][d] /\ q2' = Dfa2Delta[q2][d]
+           /\ q1' = DfaDelta[q1][d] /\ q2' = [k \in DOMAIN q2 |-> Dfa2Delta[k][q2[k]][d]]
 Next == \E d \in Dirs : Step(d)
 
 \* the permutation a direction word encodes (words shorter than 2 encode no pin)
@@ -36,7 +40,8 @@ Encoded(m) == IF Len(m) < 2 THEN <<>> ELSE PinPerm(PinMtoSP(m))
 Expected(m) == \E b \in Basis : PContains(Encoded(m), b)
 
 AcceptsIffContains == Mode = "semantic" => ((q1 \in DfaFinal) <=> Expected(word))
-DbEquivalent == (q1 \in DfaFinal) <=> (q2 \in Dfa2Final)
+Disagreeing == {k \in DOMAIN q2 : (q1 \in DfaFinal) # (q2[k] \in Dfa2Final[k])}
+DbEquivalent == Disagreeing = {}
 PairView == <<q1, q2>>
 FullView == vars
 
